@@ -60,6 +60,10 @@ CLAIMS.update({
     "C12": ("tag-table agreement between classifier and handler, dominating-facts check at every item append, argument/default resolution at collector call sites, constant folding of the type-mask length against all type ids (code and bundled JSON)", "Decides: every context tag the classifier returns is handled and every tag handled can be produced; the typed prefix is lower-cased and every completion item is appended under a lower-cased startswith test (or comes from the collector, which filters unless the prefix is empty), renamed entities under their local name; members of USE-associated modules are collected with the public filter and the ONLY list (compared on lower-cased names), USE ... ONLY: asks for public members; after CALL every candidate passes is_callable(), in USE only modules; the type mask has an entry for every type id including those of the bundled intrinsic tables; type members include inherited ones. Not decided: that the offered set equals the accessible set on every program (agreement with go-to-definition is only through the shared rules of C05)."),
 })
 
+CLAIMS.update({
+    "C06": ("regex-tree query on the occurrence matcher (zero-width neighbours, hole inside the group, escape, flags), def-use of match spans into hit records, dominating facts at the record point, sibling comparison of the references and rename handlers", "Decides the mechanics that turn occurrences into ranges: one searcher is shared by references, documentHighlight and rename; its pattern consumes nothing but the name (so adjacent occurrences are all found), the name is inserted through re.escape and matched case-insensitively; a hit's record is (0-based line index, start, end) of the name group and the hit is re-resolved at a column inside the identifier; the searched text is comment-stripped by a string-literal-aware cut, preprocessor lines are skipped, a hit is recorded only under a non-None resolution and an identity (qualified-name) comparison, the word expander tries character-literal patterns before the word pattern; rename and references call the searcher with the same arguments under the same restriction code and pass line/start/end and newName through unchanged. Not decided: which occurrences bind to the entity (get_definition's answer, C05), continuation lines."),
+})
+
 NA_REASON = "check under construction in this round (rules designed in DESIGN.md section 3, not yet implemented); will move to checks once its rules run"
 
 
